@@ -378,13 +378,17 @@ fn deterministic_generators(rec: &Recorder, out: &mut RunOutput) {
         }
     }
     // argument validation
-    for p in [0.0, 1.0, -0.5, 1.5, f64::INFINITY, f64::NEG_INFINITY] {
+    for p in [0.0, 1.0, -0.5, 1.5, -0.0, 1.0000000000000002, f64::INFINITY, f64::NEG_INFINITY] {
         for directed in [false, true] {
-            calls += 1;
-            match guarded(|| random::fast_gnp_random_graph(5, p, directed, Some(1))) {
-                Ok(Err(e)) if format!("{:?}", e.kind) == "InvalidArgument" => {}
-                Ok(r) => rec.record(Violation::new("invalid_argument", "fast_gnp_random_graph", format!("arg:{p}:{directed}"), format!("p={p}: {:?}, expected Err(InvalidArgument)", r.map(|_| "Ok").map_err(|e| e.kind)))),
-                Err(pi) => rec.record(Violation::new("no_panic", "fast_gnp_random_graph", format!("arg:{p}:{directed}"), pi.msg.clone()).with_panic(pi)),
+            for n in [0, 1, 2, 3, 5, 20, 300] {
+                for seed in [Some(1), None] {
+                    calls += 1;
+                    match guarded(|| random::fast_gnp_random_graph(n, p, directed, seed)) {
+                        Ok(Err(e)) if format!("{:?}", e.kind) == "InvalidArgument" => {}
+                        Ok(r) => rec.record(Violation::new("invalid_argument", "fast_gnp_random_graph", format!("arg:{n}:{p}:{directed}"), format!("fast_gnp_random_graph({n}, {p}, {directed}, {seed:?}): {:?}, expected Err(InvalidArgument)", r.map(|_| "Ok").map_err(|e| e.kind)))),
+                        Err(pi) => rec.record(Violation::new("no_panic", "fast_gnp_random_graph", format!("arg:{n}:{p}:{directed}"), pi.msg.clone()).with_panic(pi)),
+                    }
+                }
             }
         }
     }
